@@ -7,3 +7,11 @@ import LdkModel.Props.C06
 #print axioms Ldk.C06.bump_progress
 #print axioms Ldk.C06.feerate_bump_monotone
 #print axioms Ldk.C06.feerate_bump_none_only_if_unpayable
+#print axioms Ldk.C06.creation_height_is_confirmation_height
+#print axioms Ldk.C06.disconnect_rule
+#print axioms Ldk.C06.justice_claim_pending
+#print axioms Ldk.C06.claim_survives_reorg
+#print axioms Ldk.C06.reissued_at_timer_expiry
+#print axioms Ldk.C06.rebroadcast_reissues_every_pending_claim
+#print axioms Ldk.C06.revoked_fully_punished_after_reorgs
+#print axioms Ldk.C06.world_covers_every_revoked_output
